@@ -88,6 +88,11 @@ func (h *handshake) Start(node gen.NodeHandshake, conn net.Conn, options gen.Han
 	if ok == false {
 		return result, fmt.Errorf("malformed handshake Accept message")
 	}
+	if accept.PoolSize < 1 || accept.PoolSize > maxPoolSize {
+		// the pool size decides how many links are dialed and how many
+		// receive queues the connection gets
+		return result, fmt.Errorf("malformed handshake Accept message (pool size %d)", accept.PoolSize)
+	}
 
 	// waiting for Intro message
 	v, tail, err = h.readMessage(conn, time.Second, tail)
